@@ -546,6 +546,8 @@ func processStatementArrays(tree *ParserT, value []rune, v any, exec bool) error
 			for i := range t {
 				value = []rune(t[i])
 				appendToParam(tree, value...)
+				// an empty element is still an element
+				tree.statement.canHaveZeroLenStr = true
 				if err := tree.nextParameter(); err != nil {
 					return err
 				}
@@ -554,6 +556,8 @@ func processStatementArrays(tree *ParserT, value []rune, v any, exec bool) error
 			for i := range t {
 				value = t[i]
 				appendToParam(tree, value...)
+				// an empty element is still an element
+				tree.statement.canHaveZeroLenStr = true
 				if err := tree.nextParameter(); err != nil {
 					return err
 				}
@@ -562,6 +566,8 @@ func processStatementArrays(tree *ParserT, value []rune, v any, exec bool) error
 			for i := range t {
 				value = []rune(string(t[i]))
 				appendToParam(tree, value...)
+				// an empty element is still an element
+				tree.statement.canHaveZeroLenStr = true
 				if err := tree.nextParameter(); err != nil {
 					return err
 				}
@@ -574,6 +580,8 @@ func processStatementArrays(tree *ParserT, value []rune, v any, exec bool) error
 				}
 				value = []rune(s.(string))
 				appendToParam(tree, value...)
+				// an empty element is still an element
+				tree.statement.canHaveZeroLenStr = true
 				if err := tree.nextParameter(); err != nil {
 					return err
 				}
